@@ -372,6 +372,8 @@ class Verdict:
             if f['id'] in self.known:
                 print('KNOWN-FINDING: property=%s %s (%d cases this run; id=%s)'
                       % (self.pid, f['summary'], self.known[f['id']], f['id']))
+        if os.environ.get('VERIF_DUMP'):
+            json.dump(self.fail, open(os.path.join(VERIF, 'replays', '%s-all.json' % self.pid), 'w'), default=str)
         shown = 0
         for case in self.fail:
             if shown >= 3:
